@@ -47,9 +47,17 @@ META = {
 RUN_TIMEOUT = 900
 JOB = 'sim.props.c17:history_job'
 
-CLASSES = ['article', 'article', 'book', 'report']
-PACKAGES = ['hyperref', 'amsmath', 'amsthm', 'ifthen', 'array', 'longtable', 'xcolor', 'natbib', 'graphicx',
-            'makeidx', 'color', 'url', 'float', 'subfig', 'enumerate', 'fancyhdr', 'geometry', 'alltt', 'verbatim']
+CLASSES = ['article', 'article', 'article', 'book', 'report', 'amsart', 'amsbook', 'memoir', 'beamer']
+# every package module of plasTeX/Packages that loads offline in a plain document (document classes and the
+# picture-drawing packages that need an external imager excluded)
+PACKAGES = ['CJK', 'CJKutf8', 'a4', 'a4wide', 'afterpage', 'alltt', 'amsbsy', 'amscd', 'amsfonts', 'amsmath', 'amsopn', 'amssymb',
+            'amsthm', 'babel', 'bbding', 'bbm', 'bbold', 'booktabs', 'cancel', 'caption', 'ccaption', 'changebar', 'cleveref',
+            'color', 'comment', 'dsfont', 'endfloat', 'enumerate', 'epsf', 'eso-pic', 'fancybox', 'fancyhdr', 'fancyvrb', 'fleqn',
+            'float', 'fontenc', 'geometry', 'graphics', 'graphicx', 'hyperref', 'ifpdf', 'iftex', 'ifthen', 'imakeidx', 'inputenc',
+            'keyval', 'lipsum', 'listings', 'lmodern', 'longtable', 'makeidx', 'marginnote', 'mathtime', 'mathtools', 'microtype',
+            'minitoc', 'multicol', 'nameref', 'natbib', 'pslatex', 'quotchap', 'rotating', 'setspace', 'shortvrb', 'splitbib',
+            'subfig', 'subfigure', 'tabularx', 'tabulary', 'textcomp', 'textpos', 'times', 'tocbibind', 'todonotes', 'type1cm',
+            'ucs', 'unicode-math', 'url', 'verbatim', 'verse', 'wasysym', 'wrapfig', 'xcolor', 'xr', 'xr-hyper']
 
 # block id -> (family, kind 'W'|'R'|'N', LaTeX text with %(n)s = block ordinal)
 BLOCKS = {
@@ -241,7 +249,7 @@ def generate(seed, tier):
         if last and not any(BLOCKS[b][1] == 'R' for b in blocks):
             cand = [b for b in pool if BLOCKS[b][1] == 'R'] or ['math_inline']
             blocks.append(r.choice(cand))
-        job = {'op': 'JOB', 'cls': r.choice(CLASSES), 'packages': r.sample(PACKAGES, r.choice([0, 0, 1, 2, 3])),
+        job = {'op': 'JOB', 'cls': r.choice(CLASSES), 'packages': r.sample(PACKAGES, r.choice([0, 0, 1, 2, 3, 5])),
                'blocks': blocks, 'cut': None, 'renderer': r.choice(['HTML5', 'HTML5', 'XHTML']),
                'split': r.choice([2, 2, 0, -10, 3]), 'theme': r.choice(['default', 'default', 'minimal']),
                'dt': r.choice([1, 3600, 86400, 31 * 86400, 400 * 86400, -86400])}
@@ -375,8 +383,8 @@ def history_job(args, fs):
     from sim.lifetimes import SimClock
     if args.get('full'):
         lifetimes.preimport_all()
-    pristine_regs = register_objects()
     pristine = snapshot()
+    pristine_objs = capture_objects(pristine)
     pristine_mods = set(p.split(':')[0] for p in pristine if ':' in p)
     results = []
     real_parse = plasTeX.Compile.parse
@@ -441,39 +449,65 @@ def history_job(args, fs):
         if not out['ok']:
             break
         if args.get('scrub'):
-            out['scrubbed'] = scrub(pristine_regs)
+            out['scrubbed'] = scrub(drift, pristine_objs, args['scrub'])
     return results
-
-
-def register_objects():
-    """{class: its own 'value' object or _MISSING} for every ParameterCommand subclass."""
-    import plasTeX
-    out = {}
-    stack = [plasTeX.ParameterCommand]
-    while stack:
-        c = stack.pop()
-        out[c] = vars(c).get('value', _MISSING)
-        stack.extend(c.__subclasses__())
-    return out
 
 
 _MISSING = object()
 
 
-def scrub(pristine_regs):
-    """Harness setattr: put the attributes listed as OPEN findings (register
-    values) back to their pristine objects.  Used in half of the runs so that a
-    known drift cannot mask a new dependence: with the registers scrubbed, any
-    V1 difference has another cause and is reported."""
+def _resolve(path):
+    """'mod:Cls.inner.attr' -> (owner class, attr)"""
+    import sys
+    modname, tail = path.split(':', 1)
+    parts = tail.split('.')
+    obj = sys.modules[modname]
+    for p in parts[:-1]:
+        obj = vars(obj)[p] if isinstance(obj, type) else getattr(obj, p)
+    return obj, parts[-1]
+
+
+def capture_objects(paths):
+    out = {}
+    for path in paths:
+        if ':' not in path or path.rsplit('.', 1)[-1].startswith('@'):
+            continue
+        try:
+            owner, attr = _resolve(path)
+            out[path] = vars(owner).get(attr, _MISSING) if isinstance(owner, type) else _MISSING
+        except Exception:
+            pass
+    return out
+
+
+def scrub(drift, pristine_objs, patterns):
+    """Harness setattr: put the drifted attributes that belong to an OPEN finding
+    back to their pristine objects (and drop the per-class argument caches that
+    may have been compiled from the drifted value).  Used in half of the runs so
+    that a known drift cannot mask a new dependence: with those attributes
+    scrubbed, any V1 difference has another cause and is reported."""
+    import fnmatch
     n = 0
-    for c, v in pristine_regs.items():
-        cur = vars(c).get('value', _MISSING)
-        if cur is not v:
-            n += 1
-            if v is _MISSING:
-                delattr(c, 'value')
-            else:
-                setattr(c, 'value', v)
+    for path in sorted(drift):
+        if not any(fnmatch.fnmatchcase(path, p) for p in patterns):
+            continue
+        try:
+            owner, attr = _resolve(path)
+        except Exception:
+            continue
+        if not isinstance(owner, type):
+            continue
+        v = pristine_objs.get(path, _MISSING)
+        if v is _MISSING:
+            if attr in vars(owner):
+                delattr(owner, attr)
+        else:
+            setattr(owner, attr, v)
+        if attr == 'args':
+            for cache in ('@arguments',):
+                if cache in vars(owner):
+                    delattr(owner, cache)
+        n += 1
     return n
 
 
@@ -482,6 +516,47 @@ def scrub(pristine_regs):
 
 def prepare():
     lifetimes.pristine_parent()
+
+
+_GROUPS = None
+
+
+def known_groups():
+    """{group name: [path patterns]} from the OPEN findings of this property (known_findings.json)."""
+    global _GROUPS
+    if _GROUPS is None:
+        _GROUPS = {}
+        for e in core.load_known():
+            if e.get('property') == PID and e.get('status') == 'open' and e.get('group'):
+                _GROUPS.setdefault(e['group'], []).extend(e.get('state_paths', []))
+    return _GROUPS
+
+
+_SCRUB = None
+
+
+def scrub_patterns():
+    """Only groups marked scrub=true: values assigned while a document runs (registers).  Import-time
+    patches (beamer) cannot be scrubbed: the module is imported once, so putting the attribute back would
+    itself change a later document of that class."""
+    global _SCRUB
+    if _SCRUB is None:
+        _SCRUB = sorted(p for e in core.load_known() if e.get('property') == PID and e.get('status') == 'open'
+                        and e.get('scrub') for p in e.get('state_paths', []))
+    return _SCRUB
+
+
+def scrubbed_path(path):
+    import fnmatch
+    return any(fnmatch.fnmatchcase(path, p) for p in scrub_patterns())
+
+
+def group_of(path):
+    import fnmatch
+    for g, pats in sorted(known_groups().items()):
+        if any(fnmatch.fnmatchcase(path, p) for p in pats):
+            return g
+    return None
 
 
 def _materialise(record):
@@ -499,7 +574,7 @@ def _run(jobs, sw, root, mode='fork', hashseed=0, full=False):
     setup = {'root': root, 'cwd': root, 'clock': jobs[0]['clock'], 'full': full,
              'env': {'environ': {'HOME': root, 'TEXINPUTS': root}}}
     args = {'jobs': [dict((k, v) for k, v in j.items() if k not in ('blocks',)) for j in jobs], 'full': full,
-            'scrub': bool(sw.get('scrub')) and len(jobs) > 1}
+            'scrub': (scrub_patterns() if sw.get('scrub') and len(jobs) > 1 else None)}
     st, out = lifetimes.run_lifetime(JOB, args, setup, mode=mode, hashseed=hashseed, timeout=240)
     if st != 'ok' or not out.get('ok'):
         raise core.HarnessError('history lifetime failed: %s' % (out and out.get('traceback')))
@@ -575,15 +650,19 @@ def execute(record):
             diff = _first_diff(h, solo)
             if diff is not None:
                 drifted = sorted(p for p in (hist[j - 1]['drift'] if j > 0 else {}) if categorize(p) not in (None, 'render-leftover'))
+                # import-time patches made by THIS job (e.g. the first beamer document of the interpreter) are part of
+                # that finding too: they are ineffective where an earlier document already compiled the arguments
+                own = sorted(p for p in h['drift'] if group_of(p) and not scrubbed_path(p) and p not in drifted)
+                drifted = sorted(drifted + own)
                 scrubbed = bool(sw.get('scrub'))
                 if scrubbed:
-                    drifted = [p for p in drifted if categorize(p) != 'register']     # put back before this job started
+                    drifted = [p for p in drifted if not scrubbed_path(p)]     # those were put back before this job started
                 if not drifted:
                     attribution = 'none' if j > 0 else 'first-job'
-                elif all(categorize(p) == 'register' for p in drifted):
-                    attribution = 'register-values'
+                elif all(group_of(p) for p in drifted):
+                    attribution = '+'.join(sorted(set(group_of(p) for p in drifted)))
                 else:
-                    attribution = ','.join([p for p in drifted if categorize(p) != 'register'][:3])
+                    attribution = ','.join([p for p in drifted if group_of(p) is None][:3])
                 viol.append({'sig': 'C17|output|%s|%s' % (diff[0], attribution),
                              'detail': {'job': j, 'what': diff[0], 'where': diff[1], 'in_history': diff[2], 'alone': diff[3],
                                         'blocks': job['blocks'], 'earlier_blocks': [x['blocks'] for x in jobs[:j]],
